@@ -257,6 +257,85 @@ Fixpoint set_targets (r : roadm) (next_oms : list Z) : res roadm :=
       else Err "ConfigurationError:needs an equalization target"
   end.
 
+(* ---------- design step: reference input powers (set_roadm_input_powers, network.py:1424-1516) ---------- *)
+(* what feeds an ingress degree, found by walking upstream through fibres / fused elements (their losses add up
+   in `loss`): a transceiver (reference power pref), an amplifier (pref + delta_p - out_voa), or another ROADM
+   (its reference target on the degree it leaves through; that ROADM has the single policy pl) *)
+Inductive feed := FTrx (loss : Q) | FEdfa (dp voa loss : Q) | FRoadm (pl : policy) (loss : Q).
+Definition feed_power (pref b w : Q) (f : feed) : Q :=
+  match f with
+  | FTrx l => pref - l
+  | FEdfa dp voa l => pref + dp - voa - l
+  | FRoadm pl l => target_dbm pl b w - l
+  end.
+Definition input_powers (pref b w : Q) (feeds : list (Z * feed)) : list (Z * Q) :=
+  map (fun kf => (fst kf, feed_power pref b w (snd kf))) feeds.
+
+(* target_to_be_supported: the largest reference target configured on the ROADM (per-degree tables and node level);
+   ConfigurationError when there is none.  b, w: reference carrier *)
+Definition qmax_list (l : list Q) : option Q := match l with [] => None | h :: t => Some (qmaxl h t) end.
+Definition opt_list (o : option Q) : list Q := match o with Some q => [q] | None => [] end.
+Definition supported (r : roadm) (b w : Q) : res Q :=
+  let temp := opt_list (qmax_list (map snd (dpow r)))
+           ++ opt_list (qmax_list (map (fun kv => snd kv + b) (dpsd r)))
+           ++ opt_list (qmax_list (map (fun kv => snd kv + w) (dpsw r)))
+           ++ opt_list (npow r)
+           ++ opt_list (match npsd r with Some d => Some (d + b) | None => None end)
+           ++ opt_list (match npsw r with Some d => Some (d + w) | None => None end) in
+  match qmax_list temp with
+  | None => Err "ConfigurationError:could not find target power/PSD/PSW"
+  | Some m => Ok m
+  end.
+(* ingress degrees for which the design logs "maximum target power can not be met" *)
+Definition warned (m : Q) (rin : list (Z * Q)) : list Z :=
+  map fst (filter (fun kv => negb (Qle_bool m (snd kv))) rin).
+
+(* ---------- design step: internal paths (set_roadm_internal_paths, network.py:1567-1638) ---------- *)
+(* per_degree_impairments: dict keyed by "from-to" (a repeated pair overwrites in place) *)
+Record pdi := mkPdi { i_from : Z; i_to : Z; i_id : Z }.
+Definition pdi_same (a b : pdi) : bool := ((i_from a =? i_from b) && (i_to a =? i_to b))%Z.
+Fixpoint pdi_set (l : list pdi) (e : pdi) : list pdi :=
+  match l with
+  | [] => [e]
+  | x :: t => if pdi_same x e then e :: t else x :: pdi_set t e
+  end.
+Definition pdi_dict (l : list pdi) : list pdi := fold_left pdi_set l [].
+Definition pdi_find (d : list pdi) (from to : Z) : option Z :=
+  match find (fun e => ((i_from e =? from) && (i_to e =? to))%Z) d with Some e => Some (i_id e) | None => None end.
+(* get_path_type_per_id *)
+Definition prof_type (profs : list profile) (iid : option Z) : option ptype :=
+  match iid with
+  | None => None
+  | Some i => match find (fun p => (pid p =? i)%Z) profs with Some p => Some (ptyp p) | None => None end
+  end.
+(* a degree connected to a transceiver must be add or drop: a user-chosen profile of another type is an error *)
+Definition typed_call (profs : list profile) (d : list pdi) (want : ptype) (from to : Z) : res pcall :=
+  let iid := pdi_find d from to in
+  match prof_type profs iid with
+  | Some t => if ptype_eqb t want then Ok (mkCall from to want iid)
+              else Err "NetworkTopologyError:path_type of the chosen impairment does not fit the degree"
+  | None => Ok (mkCall from to want iid)
+  end.
+Fixpoint mapM {A B} (f : A -> res B) (l : list A) : res (list B) :=
+  match l with
+  | [] => Ok []
+  | x :: t => let* y := f x in let* ys := mapM f t in Ok (y :: ys)
+  end.
+Definition zmem (k : Z) (l : list Z) : bool := existsb (fun x => (x =? k)%Z) l.
+Definition nonempty {A} (l : list A) : bool := match l with [] => false | _ => true end.
+
+(* prev / next : ingress / egress degrees that are not transceivers; drops / adds : transceiver degrees *)
+Definition internal_paths (profs : list profile) (pdis : list pdi) (prev next drops adds : list Z) : res (list pcall) :=
+  let d := pdi_dict pdis in
+  let* a := mapM (fun from =>
+                    let* ds := mapM (fun dr => typed_call profs d Drop from dr) drops in
+                    Ok (map (fun to => mkCall from to Express (pdi_find d from to)) next ++ ds)) prev in
+  let* b := mapM (fun to => mapM (fun ad => typed_call profs d Add ad to) adds) next in
+  let froms := prev ++ (if nonempty next then adds else []) in
+  let tos := if nonempty prev then next ++ drops else [] in
+  if forallb (fun e => zmem (i_from e) froms && zmem (i_to e) tos) d then Ok (concat a ++ concat b)
+  else Err "NetworkTopologyError:per_degree_impairments names a wrong from-to degree".
+
 (* ---------- single-policy checks on the set of provided keys ---------- *)
 (* state of the three keys target_pch_out_db / target_psd_out_mWperGHz / target_out_mWperSlotWidth *)
 Record keys3 := mkK { kpow : kv; kpsd : kv; kpsw : kv }.
